@@ -301,6 +301,25 @@ def desugar_for_ranges(b, ordinals, g, where):
                 split = (toks[i].start, toks[i + 1].end)
                 break
             i += 1
+        mval = re.match(r"^(verif_[a-z_0-9]+\(.*\)|[a-z_][a-z_0-9]*)$", rng, re.S)
+        if split is None and mval and not re.match(r"^&", rng):
+            # R21 (by value): `for x in VEC_EXPR { BODY }` over a Vec of Copy elements (a wrapper call returning a Vec, or a
+            # local Vec that is not used afterwards) => `{ let verif_vec_K = VEC_EXPR; let mut verif_next_K: usize = 0;
+            # while verif_next_K < verif_vec_K.len() { let x = verif_vec_K[verif_next_K]; verif_next_K += 1; BODY } }`
+            src = mval.group(1)
+            btoks = rustlex.lex(b)
+            bpairs = rustlex.match_brackets(btoks)
+            close = None
+            for o, c in bpairs.items():
+                if btoks[o].start == bpos:
+                    close = btoks[c].start
+            new_head = "{ let verif_vec_%d = %s; let mut verif_next_%d: usize = 0;\n        while verif_next_%d < verif_vec_%d.len()\n        " % (k, src, k, k, k)
+            body_intro = " let %s = verif_vec_%d[verif_next_%d]; verif_next_%d += 1;" % (var, k, k, k)
+            b = b[:kwpos] + new_head + "{" + body_intro + b[bpos + 1:close + 1] + " }" + b[close + 1:]
+            g.rewrites.append({"item": where, "rule": "R21", "loop": k, "old": header.strip(),
+                               "new": (new_head + "{" + body_intro).strip(),
+                               "why": "for over a Vec of Copy elements taken by value -> index/while loop copying each element"})
+            continue
         mchars = re.match(r"^([A-Za-z_][A-Za-z0-9_.]*)\.chars\(\)$", rng)
         if split is None and mchars:
             # R28: `for c in STR.chars() { BODY }` => `{ let verif_vec_K = verif_chars(&STR); let mut verif_next_K: usize = 0;
